@@ -39,10 +39,12 @@ def show(e):
             return "false"
         if isinstance(v, int):
             return str(v)
+        if isinstance(v, float):
+            return repr(v)
         return strlit(v)
     if k == "neg":
         x = show(e[1])
-        if level(e[1]) <= NEG_LEVEL or (e[1][0] == "lit" and isinstance(e[1][1], int) and e[1][1] < 0):
+        if level(e[1]) <= NEG_LEVEL or (e[1][0] == "lit" and isinstance(e[1][1], (int, float)) and e[1][1] < 0):
             x = "(" + x + ")"
         return "-" + x
     if k == "not":
@@ -62,6 +64,81 @@ def show(e):
     if l[0] == "neg" and lv > NEG_LEVEL and not ls.startswith("("):
         ls = "(" + ls + ")"
     return "%s %s %s" % (ls, op, rs)
+
+
+def show_full(e):
+    """fully parenthesised spelling of the tree (float cases compare it with the minimal one)"""
+    k = e[0]
+    if k in ("var", "lit"):
+        return show(e)
+    if k == "neg":
+        return "(-" + show_full(e[1]) + ")"
+    if k == "not":
+        return "(not " + show_full(e[1]) + ")"
+    return "(%s %s %s)" % (show_full(e[2]), e[1], show_full(e[3]))
+
+
+FVARS = {"p": 2.5, "q": -1.5, "w": 2.0}
+FPRE = "let p = verif_idf(2.5)\nlet q = verif_idf(-1.5)\nlet w = verif_idf(2.0)\n"
+FDECLS = "fn verif_idf(x: float) -> float = x\n"
+
+
+def fev(e):
+    """python evaluation of a float tree, only to discard cases with NaN / infinities / division by zero"""
+    k = e[0]
+    if k == "var":
+        return FVARS[e[1]]
+    if k == "lit":
+        return e[1]
+    if k == "neg":
+        return -fev(e[1])
+    a, b = fev(e[2]), fev(e[3])
+    op = e[1]
+    if op == "+":
+        return a + b
+    if op == "-":
+        return a - b
+    if op == "*":
+        return a * b
+    if op == "/":
+        return a / b
+    if op == "^":
+        return a ** b
+    raise ValueError(op)
+
+
+def fgen(r, d):
+    if d == 0 or r.chance(15):
+        k = r.below(10)
+        if k < 4:
+            return ("var", r.choice(["p", "q", "w"]))
+        if k < 8:
+            return ("lit", r.choice([0.5, 2.0, 3.0, 1.5]))
+        return ("neg", ("lit", r.choice([2.0, 0.5, 3.0])))
+    if r.chance(12):
+        return ("neg", fgen(r, d - 1))
+    op = r.choice(["+", "-", "*", "/", "^", "^", "*"])
+    a, b = fgen(r, d - 1), fgen(r, d - 1)
+    if op == "^":
+        b = ("lit", r.choice([2.0, 3.0]))
+    return ("bin", op, a, b)
+
+
+def float_case(e):
+    """-> Case or None. The minimally parenthesised spelling must denote the same value as the fully
+    parenthesised one (no float rendering or pow reference is involved)."""
+    import math
+    try:
+        v = fev(e)
+    except (ZeroDivisionError, OverflowError, ValueError):
+        return None
+    if isinstance(v, complex) or math.isnan(v) or math.isinf(v):
+        return None
+    mn, fl = show(e), show_full(e)
+    if mn == fl or mn == fl[1:-1]:
+        return None
+    body = FPRE + "let m = %s\nlet u = %s\nprintln(m == u)\nprintln(m < u or m > u)" % (mn, fl)
+    return Case("fexpr %s" % mn, body, ("out", "true\nfalse\n"), FDECLS)
 
 
 def neg_lit_tree(e):
@@ -196,11 +273,40 @@ def run(ctx):
                     except progen.Unsupported:
                         continue
                     cases.append(Case("expr %s" % txt, PRE + "println(%s)" % txt, exp, DECLS))
+    # float sub-grammar (+ - * / ^, unary minus, negative literals): minimal vs full parentheses
+    nf = 1500 if ctx.quick else 25000
+    tries = 0
+    fcount = 0
+    while fcount < nf and tries < nf * 6:
+        tries += 1
+        e = fgen(r, r.choice([1, 2, 2, 3, 3]))
+        c = float_case(e)
+        if c is None or c.key in seen:
+            continue
+        seen.add(c.key)
+        cases.append(c)
+        fcount += 1
+    fops = ["+", "-", "*", "/", "^"]
+    fleaf = [(("var", "p"), ("var", "q"), ("var", "w")), (("lit", 3.0), ("lit", 2.0), ("lit", 2.0)),
+             (("neg", ("lit", 2.0)), ("lit", 3.0), ("lit", 2.0)), (("lit", 3.0), ("neg", ("lit", 2.0)), ("lit", 2.0)),
+             (("neg", ("var", "w")), ("var", "p"), ("var", "w"))]
+    for o1 in fops:
+        for o2 in fops:
+            for (x, y, z) in fleaf:
+                for e in (("bin", o2, ("bin", o1, x, y), z), ("bin", o1, x, ("bin", o2, y, z)),
+                          ("neg", ("bin", o1, x[1] if x[0] == "neg" else x, y)), ("bin", o2, ("neg", ("bin", o1, x[1] if x[0] == "neg" else x, y)), z)):
+                    c = float_case(e)
+                    if c is not None and c.key not in seen:
+                        seen.add(c.key)
+                        cases.append(c)
+                        fcount += 1
     nruns, observed, failures = run_cases(ctx, "c31", cases, lambda c: "C31 " + c.key, per_prog=150)
     ctx.coverage(
         evaluations=nruns,
         distinct_nontrivial=len(observed),
-        rule="case = one expression tree over the int/bool/string sub-grammars (all 15 binary operators, unary minus, not; leaves "
+        float_cases=fcount,
+        rule="float cases: the minimally parenthesised spelling of a float tree (+ - * / ^, unary minus, negative literals) must equal "
+             "its fully parenthesised spelling; case = one expression tree over the int/bool/string sub-grammars (all 15 binary operators, unary minus, not; leaves "
              "variables, literals, negative literals) printed with the minimal parentheses the documented table requires; "
              "distinct = distinct printed expressions whose value/error was compared with the tree's reference value",
         samples=[{"case": c.key, "expected": c.expect} for c in (cases[0], cases[len(cases) // 2], cases[-1])],
